@@ -205,8 +205,13 @@ class Ctx:
         self.bins[pkg] = out
         rc, log, dt = sh(["go", "build", "-tags", "verif"] + extra + ["-o", out, "./" + pkg], cwd=HARNESS,
                          env=go_env(), timeout=timeout)
-        if rc != 0 and ".cache/go-build" in log and "no such file or directory" in log:
-            # an entry of the shared Go build cache was trimmed while the build read it: not a fact about /repo
+        for attempt in range(3):
+            if not (rc != 0 and (".cache/go-build" in log or "go-build" in log) and
+                    ("no such file or directory" in log or "no space left on device" in log)):
+                break
+            # an entry of the shared Go build cache vanished (or the disk was full) while the build ran: that is a fact
+            # about the machine, not about /repo - wait a little and build again
+            time.sleep(5 * (attempt + 1))
             rc, log, dt = sh(["go", "build", "-tags", "verif"] + extra + ["-o", out, "./" + pkg], cwd=HARNESS,
                              env=go_env(), timeout=timeout)
         self.log("go build ./%s rc=%d (%.1fs)" % (pkg, rc, dt))
